@@ -72,8 +72,10 @@ def _same(a, b) -> bool:
 
 
 def _inv(extra_colls=()) -> bool:
-    colls = list(_COLLS) + list(extra_colls)
-    objs = list(_OBJS) + list(extra_colls)
+    return _inv_over(list(_COLLS) + list(extra_colls), list(_OBJS) + list(extra_colls))
+
+
+def _inv_over(colls, objs) -> bool:
     for o in objs:
         p = o._parent
         if p is not None and not any(p is c for c in colls):
@@ -227,6 +229,36 @@ def h_copy(p0: int, p1: int, p2: int, p3: int, p4: int, x: int) -> bool:
         if len(cp.children_all) != len(_OBJS[x].children_all):
             return False
     # parents of the original objects did not change
+    for i, p in enumerate(par):
+        if (_OBJS[i]._parent is None) != (p == -1):
+            return False
+        if p >= 0 and _OBJS[i]._parent is not _OBJS[p]:
+            return False
+    return True
+
+
+_BAD_COPY_KW = ({"position": "bad"}, {"orientation": 5}, {"style_notaleaf": 1}, {"parent": "nope"})
+
+
+def h_copy_rejected(p0: int, p1: int, p2: int, p3: int, p4: int, x: int, k: int) -> bool:
+    """
+    pre: _valid(_par4(p0, p1, p2, p3, p4)) and 0 <= x < N and 0 <= k <= 3 and -1 <= p4 <= 2
+    post: _
+    """
+    # copy(**kwargs) with a keyword that is rejected: the call raises and the forest is what it was
+    par = _par4(p0, p1, p2, p3, p4)
+    _build(par)
+    kw = _BAD_COPY_KW[0]
+    for j in range(len(_BAD_COPY_KW)):
+        if j == k:
+            kw = _BAD_COPY_KW[j]
+    try:
+        _OBJS[x].copy(**kw)
+        return False  # must be rejected
+    except Exception:
+        pass
+    if not _inv():
+        return False
     for i, p in enumerate(par):
         if (_OBJS[i]._parent is None) != (p == -1):
             return False
@@ -549,3 +581,93 @@ def h_plus_x4(p0: int, p1: int, p2: int, p3: int, p4: int, y: int) -> bool:
     post: _
     """
     return _plus(p0, p1, p2, p3, p4, 4, y)
+
+
+
+# ---------------------------------------------------------------------------- depth 3 (own universe, independent of NCOLL): T > M > L chains
+# pre-states: parent(M) in {None,T}, parent(L) in {None,T,M}, parent(sensor) in {None,T,M,L}  (24 valid forests incl. the chain T>M>L;
+# forests where L is above M are the same up to renaming).  One operation with every target / argument of the universe.
+_DT, _DM, _DL = Collection(), Collection(), Collection()
+_DS = Sensor()
+_DC = [_DT, _DM, _DL]
+_DO = [_DT, _DM, _DL, _DS]
+
+
+def _dbuild(pm: int, pl: int, ps: int):
+    for o in _DO:
+        o._parent = None
+    for c in _DC:
+        c._children = []
+        c._sources = []
+        c._sensors = []
+        c._collections = []
+    for o, p in ((_DM, pm), (_DL, pl), (_DS, ps)):
+        if p >= 0:
+            o._parent = _DC[p]
+            _DC[p]._children.append(o)
+    for c in _DC:
+        c._update_src_and_sens()
+
+
+def h_deep_add1(pm: int, pl: int, ps: int, tgt: int, x: int, override: bool) -> bool:
+    """
+    pre: -1 <= pm <= 0 and -1 <= pl <= 1 and -1 <= ps <= 2 and 0 <= tgt <= 2 and 0 <= x <= 3
+    post: _
+    """
+    _dbuild(pm, pl, ps)
+    try:
+        _DC[tgt].add(_DO[x], override_parent=override)
+    except Exception:
+        pass
+    return _inv_over(_DC, _DO)
+
+
+def h_deep_parent(pm: int, pl: int, ps: int, x: int, newp: int) -> bool:
+    """
+    pre: -1 <= pm <= 0 and -1 <= pl <= 1 and -1 <= ps <= 2 and 0 <= x <= 3 and -1 <= newp <= 2
+    post: _
+    """
+    _dbuild(pm, pl, ps)
+    try:
+        _DO[x].parent = None if newp == -1 else _DC[newp]
+    except Exception:
+        pass
+    return _inv_over(_DC, _DO)
+
+
+def h_deep_children(pm: int, pl: int, ps: int, tgt: int, x: int, typed: bool) -> bool:
+    """
+    pre: -1 <= pm <= 0 and -1 <= pl <= 1 and -1 <= ps <= 2 and 0 <= tgt <= 2 and 0 <= x <= 3
+    post: _
+    """
+    _dbuild(pm, pl, ps)
+    try:
+        if typed:
+            _DC[tgt].collections = [_DO[x]]
+        else:
+            _DC[tgt].children = [_DO[x]]
+    except Exception:
+        pass
+    return _inv_over(_DC, _DO)
+
+
+def h_deep_remove(pm: int, pl: int, ps: int, tgt: int, x: int, recursive: bool, ignore: bool) -> bool:
+    """
+    pre: -1 <= pm <= 0 and -1 <= pl <= 1 and -1 <= ps <= 2 and 0 <= tgt <= 2 and 0 <= x <= 3
+    post: _
+    """
+    _dbuild(pm, pl, ps)
+    try:
+        _DC[tgt].remove(_DO[x], recursive=recursive, errors="ignore" if ignore else "raise")
+    except Exception:
+        pass
+    return _inv_over(_DC, _DO)
+
+
+def twin_deep_chain(pm: int, pl: int, ps: int) -> bool:
+    """
+    pre: -1 <= pm <= 0 and -1 <= pl <= 1 and -1 <= ps <= 2
+    post: _
+    """
+    _dbuild(pm, pl, ps)
+    return not (_DL._parent is _DM and _DM._parent is _DT and _DS._parent is _DL)
